@@ -420,7 +420,7 @@ def run(ctx: Ctx):
         ctx.case(("corpus", p), sample=None)
         eval_case(ctx, c)
         ctx.count("corpus")
-    generate(ctx, 1 if ctx.tier == "quick" else 20, ctx.rng)
+    generate(ctx, 1 if ctx.tier == "quick" else 12, ctx.rng)
 
 
 def search(ctx: Ctx):
